@@ -88,6 +88,8 @@ def tree_hash(repo=REPO):
         h.update(hashlib.sha256(data).digest())
     with open(DRIVER, "rb") as fh:
         h.update(hashlib.sha256(fh.read()).digest())
+    with open(os.path.join(VERIF, "tables", "controls", "src", "lib.rs"), "rb") as fh:
+        h.update(hashlib.sha256(fh.read()).digest())
     h.update(json.dumps(CONFIGS, sort_keys=True).encode())
     return h.hexdigest()[:24]
 
@@ -117,6 +119,26 @@ def _run_driver(config, outdir, repo=REPO):
         text=True,
     )
     return r
+
+
+def _controls(config, outdir):
+    """Compile the positive-control crate (tables/controls) with the same driver."""
+    cdir = os.path.join(VERIF, "tables", "controls")
+    target = os.path.join(CACHE, "target-controls-" + config + os.environ.get("XT_SLOT", ""))
+    fp = os.path.join(target, "debug", ".fingerprint")
+    if os.path.isdir(fp):
+        shutil.rmtree(fp, ignore_errors=True)
+    env = env_offline()
+    env["LD_LIBRARY_PATH"] = _sysroot() + "/lib:" + env.get("LD_LIBRARY_PATH", "")
+    env["RUSTFLAGS"] = CONFIGS[config]
+    env["RUSTC_WORKSPACE_WRAPPER"] = DRIVER
+    env["XTFACTS_OUT"] = outdir
+    env["XTFACTS_CRATES"] = "xt_controls"
+    env["CARGO_TARGET_DIR"] = target
+    env["CARGO_INCREMENTAL"] = "0"
+    r = subprocess.run(["cargo", "+nightly", "check", "--offline", "--lib"], cwd=cdir, env=env, stdout=subprocess.PIPE, stderr=subprocess.STDOUT, text=True)
+    if r.returncode != 0 or not os.path.exists(os.path.join(outdir, "xt_controls-lib.json")):
+        raise BuildFailed("positive-control crate failed to build with the fact driver:\n" + r.stdout[-2000:])
 
 
 def _build_graph(outdir, repo=REPO):
@@ -180,6 +202,7 @@ def get_facts(config="dev", repo=REPO, verbose=False):
                 + r.stdout[-3000:]
             )
         _build_graph(outdir, repo)
+        _controls(config, outdir)
         with open(marker, "w") as fh:
             fh.write(h)
         _prune()
